@@ -95,6 +95,13 @@ func tierFor(prop, tier string) tierCfg {
 		if tier == "thorough" {
 			t.raceRuns = 40000
 		}
+	case "C16":
+		// endings racing with each other under real parallelism
+		t.race = true
+		t.raceRuns = 2000
+		if tier == "thorough" {
+			t.raceRuns = 40000
+		}
 	case "C15":
 		t.race = true
 		t.raceRuns = 3000
